@@ -6,6 +6,7 @@ set_option linter.unusedSimpArgs false
 namespace Sftp.Pipe
 
 theorem applySend_slots (cfg : PipeCfg) (s : State) : (applySend cfg s).slots = s.slots := rfl
+theorem drainState_slots (cfg : PipeCfg) (s : State) : (drainState cfg s).slots = s.slots := rfl
 
 /-- the number of pool workers never changes -/
 theorem slots_length_step {cfg : PipeCfg} {s s' : State} {a : Action} (hs : step cfg s a = some s') :
@@ -19,7 +20,7 @@ theorem slots_length_step {cfg : PipeCfg} {s s' : State} {a : Action} (hs : step
         ctlFiniStep] at hs <;>
       (repeat' split at hs) <;>
       first
-        | (simp only [Option.some.injEq] at hs; subst hs; simp [applySend_slots])
+        | (simp only [Option.some.injEq] at hs; subst hs; simp [applySend_slots, drainState_slots])
         | simp at hs
 
 theorem slots_length_run {cfg : PipeCfg} (as : List Action) {s s' : State} (hr : run cfg s as = some s') :
@@ -59,7 +60,7 @@ theorem progress (cfg : PipeCfg) (hw : 1 ≤ cfg.workers) {s : State} (hl : InvL
     ∃ a, (step cfg s a).isSome = true := by
   have hnp := hl.noPanic
   by_cases hf : s.finiClosed = true
-  · exact ⟨.ctlFini, by simp [step, hnp, ctlFiniStep, hf, hst]⟩
+  · exact ⟨.ctlFini, by simp only [step, hnp, ctlFiniStep, hf, hst]; simp only [Bool.false_eq_true, if_false, and_self, if_true]; split <;> rfl⟩
   by_cases hw0 : s.working = 0
   · cases hp : s.pktChan with
     | nil => exact ⟨.dispatcherShutdown, by simp [step, hnp, dispatcherShutdownStep, hin, hp, hl.noPend, hf, hw0]⟩
